@@ -48,6 +48,8 @@ CHECKS = {
              text="Soundness and completeness of cycle diagnosis over generated graphs: a cycle in the needed closure => non-zero exit, 'dependency cycle' message whose hops are real inputs, first = last, no command of the cycle run; no cycle => never the cycle message (validation back references included)."),
  "C19": dict(cat="model_checking", ref="6.C19", tech="histories with dry-run invocations (after changes, failures and crashes) from Families.tla on the real engine; TLC trace validation: no command started, sources/outputs/depfiles and the loaded meaning of both logs unchanged, listed commands = NinjaRef!ExpectedRun",
              text="Dry-run part of C19 on the in-process harness: tree and log meaning before/after, prediction equals the reference (superset with restat).  The read-only tools of the real binary are checked by the H2 part when present (evidence field 'tools')."),
+ "C18": dict(cat="model_checking", ref="6.C18", tech="clean scopes as TLA+ set comprehensions (RefTrace.tla CleanScope) checked by TLC on executions of the real Cleaner (all / targets / rules / -g / -n / cleandead) over generated graphs, tree states and manifest variants",
+             text="For every generated graph x tree state x scope: removed files lie inside the scope and outside sources / phony names / (without -g) generator outputs, every existing file of the scope is removed (dry run: counted, nothing removed), and the following build re-creates everything (C01 monitor on the same trace)."),
 }
 
 NOT_YET = "check not built yet (work in progress; see DESIGN.md section 9)"
